@@ -33,7 +33,18 @@ def _def_nonnone(d: Node) -> Optional[bool]:
     return None
 
 
-def flag_edge_justified(g: CFG, n: Node, lab, justified: EdgePred, start: Optional[int], depth: int = 0) -> bool:
+def flag_edge_justified(g: CFG, n: Node, lab, justified: EdgePred, start: Optional[int], depth: int = 0, _memo: Optional[dict] = None) -> bool:
+    _memo = {} if _memo is None else _memo
+    key = (n.id, id(n.ast), lab, depth)
+    if key in _memo:
+        return _memo[key]
+    _memo[key] = False  # recursion through the same test: not justified
+    r = _flag_edge_justified(g, n, lab, justified, start, depth, _memo)
+    _memo[key] = r
+    return r
+
+
+def _flag_edge_justified(g: CFG, n: Node, lab, justified: EdgePred, start: Optional[int], depth: int, _memo: dict) -> bool:
     """A test on a plain local flag:  `ok = a and b ... ; if ok:`.  The edge (ok, lab) is as good as a
     justified edge when every definition of the flag that can make this edge feasible is itself
     reachable only across justified edges (definitions with the opposite known truthiness make the
@@ -88,19 +99,23 @@ def flag_edge_justified(g: CFG, n: Node, lab, justified: EdgePred, start: Option
                 if isinstance(vv, ast.Name):
                     # flag = other_flag
                     inner = Node(d.id, "test", vv, loops=d.loops)
-                    if flag_edge_justified(g, inner, ll, justified, start, depth + 1):
+                    if flag_edge_justified(g, inner, ll, justified, start, depth + 1, _memo):
                         continue
             except Exception:  # noqa: BLE001
                 pass
         def j2(t, l, depth=depth):
-            return justified(t, l) or (t.id != n.id and flag_edge_justified(g, t, l, justified, start, depth + 1))
+            return justified(t, l) or (t.id != n.id and flag_edge_justified(g, t, l, justified, start, depth + 1, _memo))
 
         def skip_edge(a, l, b):
             return a.kind in ("test", "for") and l in ("T", "F") and j2(a, l)
 
         reached = g.reach([g.entry if start is None else start], skip_edge=skip_edge)
         if d.id in reached:
-            return False
+            # the definition itself is not guarded: it still does no harm if, from it, the test is only
+            # reached (without the flag being redefined on the way) across justified edges
+            onward = g.reach([d.id], skip_node=lambda x, d=d: x.id != d.id and node_defines(x, fname), skip_edge=skip_edge)
+            if n.id in onward or n.id < 0:
+                return False
     return True
 
 
@@ -318,6 +333,16 @@ def _binds(target: ast.AST, name: str) -> bool:
 
 
 def node_defines(n: Node, name: str) -> bool:
+    cache = n.__dict__.get("_sv_defs")
+    if cache is None:
+        cache = n.__dict__["_sv_defs"] = {}
+    r = cache.get(name)
+    if r is None:
+        r = cache[name] = _node_defines(n, name)
+    return r
+
+
+def _node_defines(n: Node, name: str) -> bool:
     a = n.ast
     if a is None:
         return False
@@ -341,6 +366,16 @@ def node_defines(n: Node, name: str) -> bool:
 
 def reaching_defs(g: CFG, nid: int, name: str) -> List[Node]:
     """Definition nodes of `name` that reach node nid (exclusive) along some path."""
+    memo = g.__dict__.setdefault("_sv_rd", {})
+    key = (nid, name, len(g.nodes))
+    if key in memo:
+        return list(memo[key])
+    out = _reaching_defs(g, nid, name)
+    memo[key] = out
+    return list(out)
+
+
+def _reaching_defs(g: CFG, nid: int, name: str) -> List[Node]:
     preds = g.preds()
     seen, out, todo = set(), [], [p for _l, p in preds[nid]]
     while todo:
